@@ -12,7 +12,7 @@ let b = function true -> "true" | false -> "false"
 let call_name = function
   | CPipe -> "pipe" | CGetfd -> "getfd" | CSetfd -> "setfd" | CGetfl -> "getfl" | CSetfl -> "setfl"
   | CClose -> "close" | CRead -> "read" | CWrite -> "write" | CPoll -> "poll" | COpen -> "open"
-  | CFileno -> "fileno" | CDup2 -> "dup2" | CFork -> "fork" | CExecvp -> "execvp" | CExit -> "_exit"
+  | CFileno -> "fileno" | CDup2 -> "dup2" | CDupfd -> "dupfd" | CFork -> "fork" | CExecvp -> "execvp" | CExit -> "_exit"
   | CWaitpid -> "waitpid" | CKill -> "kill" | CChdir -> "chdir" | CGetcwd -> "getcwd"
   | CGetrlimit -> "getrlimit" | CSigfillset -> "sigfillset" | CSigemptyset -> "sigemptyset"
   | CSigaction -> "sigaction" | CSigmask -> "sigmask" | CClock -> "clock" | CMalloc -> "malloc"
